@@ -140,6 +140,36 @@ def listPage (v : Variant) (keys : List String) (tok : Tok) (size : Int) : Out P
         | .err c => .err c
         | .panic => .panic
 
+/-- A List call with a read mask (after the read-mask fix): paging — search, slice and the next token —
+works on the unmasked listing; the mask only decides what the returned items show.  `keyVisible = false`:
+the mask does not mention the key field, the items come back with an empty key. -/
+def listPageMasked (v : Variant) (keys : List String) (tok : Tok) (size : Int) (keyVisible : Bool) : Out Page :=
+  match listPage v keys tok size with
+  | .ok p => .ok { p with items := if keyVisible then p.items else p.items.map (fun _ => "") }
+  | .err c => .err c
+  | .panic => .panic
+
+/-- What a page shows under the read mask. -/
+def Page.display (keyVisible : Bool) (p : Page) : Page :=
+  { p with items := if keyVisible then p.items else p.items.map (fun _ => "") }
+
+/-- Following next_page_token with a read mask. -/
+def chainMasked (v : Variant) (keys : List String) (size : Nat → Int) (keyVisible : Bool) :
+    Nat → Nat → Tok → Option (List Page)
+  | 0, _, _ => none
+  | fuel + 1, i, tok =>
+    match listPageMasked v keys tok (size i) keyVisible with
+    | .ok p =>
+      match p.next with
+      | none => some [p]
+      | some k => (chainMasked v keys size keyVisible fuel (i + 1) (.key k)).map (p :: ·)
+    | _ => none
+
+/-- Before 2829c35 the id-keyed listers fetched the listing THROUGH the read mask and paged over what
+came back: with the key hidden every key the paging code saw was "". -/
+def listPageMaskedUnfixed (v : Variant) (keys : List String) (tok : Tok) (size : Int) (keyVisible : Bool) : Out Page :=
+  listPage v (if keyVisible then keys else keys.map (fun _ => "")) tok size
+
 /-- The same call on the code as it was before f9325fa (no negative-size guard); kept to state what
 the repaired defect was. -/
 def listPageUnfixed (v : Variant) (keys : List String) (tok : Tok) (size : Int) : Out Page :=
